@@ -21,6 +21,10 @@ var probeNames = []string{
 	"F11 cmpctblock: prefilled tx with input count 2^62 and data ending after the outpoint",
 }
 
+// probeFixed marks witnesses of defects that have been repaired in /repo meanwhile: they are still
+// replayed (a reappearance is a VIOLATION, their classes are no longer listed as known), silence is expected.
+var probeFixed = map[int]string{1: "7772e905", 4: "aca522c6", 5: "62303404", 7: "62303404", 9: "79673eae", 12: "62303404"}
+
 func makeProbe(h *harness, k int) *script {
 	g := &gen{h: h, r: newSelfTestRand("probe", uint32(k))}
 	s := &script{Idx: probeBase - k, Kind: "fixed-witness"}
